@@ -318,6 +318,21 @@ class World:
         getattr(tgt, meth)(sub)
         self.ev("unsub", who=who, kind=kind, target=op.get("target", "socket"), method=meth)
 
+    def op_echo_written(self, op):
+        """Feed back, on the current connection, exactly the bytes the client wrote since the last echo."""
+        start = getattr(self, "_echo_from", 0)
+        data = []
+        for ev in self.trace[start:]:
+            if ev["e"] == "write":
+                data += ev["b"]
+        self._echo_from = len(self.trace)
+        tr = self.net.transport("last")
+        if tr is None or not tr.alive_for_peer() or not data:
+            self.ev("skipped", what="echo_written")
+            return
+        self.ev("feed", c=tr.c, b=data, tag="echo")
+        tr.feed(bytes(data))
+
     def op_mark(self, op):
         self.ev("mark", tag=op["tag"])
 
@@ -361,6 +376,13 @@ class World:
                 return datetime.timedelta(seconds=a["seconds"])
             if "msg" in a:
                 return P.build(self.proto, a["msg"])
+            if "decoded" in a:      # the object the real decoder makes of a console payload
+                from . import codec
+                d = a["decoded"]
+                pl = bytes(d["payload"])
+                res = codec.registry(self.proto).get_decoder(d["type"]).decode(pl, codec._hdr(self.proto, d["type"], len(pl)))
+                res.assert_complete()
+                return res.message
             if "policy" in a:
                 return self.S.RetryPolicy(max_retries=a["policy"]["retries"],
                                           max_lifetime=a["policy"]["lifetime_ms"] / 1000)
@@ -383,6 +405,9 @@ class World:
             args = [self._arg(a) for a in op.get("args", [])]
             kwargs = {k: self._arg(v) for k, v in op.get("kwargs", {}).items()}
         except Exception as ex:
+            if any(isinstance(a, dict) and "decoded" in a for a in op.get("args", [])):
+                self.ev("skipped", what="call", why=type(ex).__name__)   # the decoder rejected the payload
+                return
             raise MachineryError(f"cannot build arguments of call {cid}: {ex!r}")
         if op["method"] == "send" and op.get("target", "socket") == "socket" and len(args) == 2:
             # what is being submitted, as the object itself projects, and its policy
